@@ -124,3 +124,222 @@ Proof.
              plm / 1024 mod 32) * 32 + plm / 32 mod 32) * 32 + plm mod 32) with plm by lia.
   unfold plm. rewrite <- N.lxor_assoc, N.lxor_nilpotent, N.lxor_0_l. reflexivity.
 Qed.
+
+(* ================= 2. 8 -> 5 -> 8 bit conversion ================= *)
+(* the decoder with its accumulator normalised to the bits that are still unread *)
+Fixpoint D (data : list N) (y bits : N) (ret : bytes) : result bytes :=
+  match data with
+  | [] => if (5 <=? bits) || negb (y =? 0) then Err else Ok ret
+  | v :: t =>
+      if 32 <=? v then Err
+      else
+        let y' := y * 32 + v in
+        if 8 <=? bits + 5 then D t (y' mod 2 ^ (bits + 5 - 8)) (bits + 5 - 8) (ret ++ [y' / 2 ^ (bits + 5 - 8)])
+        else D t y' (bits + 5) ret
+  end.
+
+Ltac pow2 := repeat match goal with
+  | |- context [2 ^ ?e] => let v := eval vm_compute in (2 ^ e) in change (2 ^ e) with v
+  | H : context [2 ^ ?e] |- _ => let v := eval vm_compute in (2 ^ e) in change (2 ^ e) with v in H
+  end.
+
+Lemma small_cases bits : bits < 8 ->
+  bits = 0 \/ bits = 1 \/ bits = 2 \/ bits = 3 \/ bits = 4 \/ bits = 5 \/ bits = 6 \/ bits = 7.
+Proof. lia. Qed.
+
+Lemma dec_D data : forall acc bits ret, bits < 8 ->
+  from_base32_go data acc bits ret = D data (acc mod 2 ^ bits) bits ret.
+Proof.
+  induction data as [|v t IH]; intros acc bits ret Hb.
+  - cbn [from_base32_go D]. rewrite N.shiftl_mul_pow2.
+    destruct (small_cases bits Hb) as [->|[->|[->|[->|[->|[->|[->| ->]]]]]]]; pow2;
+      change (8 - 0) with 8; change (8 - 1) with 7; change (8 - 2) with 6; change (8 - 3) with 5;
+      change (8 - 4) with 4; change (8 - 5) with 3; change (8 - 6) with 2; change (8 - 7) with 1; pow2;
+      try reflexivity;
+      match goal with |- (if ?c || negb ?a then _ else _) = (if ?c || negb ?b then _ else _) =>
+        replace a with b; [reflexivity|] end;
+      match goal with |- (?a =? 0) = (?b =? 0) =>
+        destruct (a =? 0) eqn:E1; destruct (b =? 0) eqn:E2; try reflexivity; exfalso; lia end.
+  - cbn [from_base32_go D]. rewrite N.shiftr_div_pow2. change (2 ^ 5) with 32.
+    destruct (32 <=? v) eqn:Ev.
+    + destruct (v / 32 =? 0) eqn:E; [exfalso; lia|reflexivity].
+    + destruct (v / 32 =? 0) eqn:E; [|exfalso; lia]. cbn [negb].
+      rewrite N.shiftl_mul_pow2. change (2 ^ 5) with 32.
+      assert (Hlor : N.lor ((acc * 32) mod 4294967296) v = (acc * 32) mod 4294967296 + v).
+      { apply (lor_disj _ v 5); change (2 ^ 5) with 32; lia. }
+      rewrite Hlor. set (acc' := (acc * 32) mod 4294967296 + v).
+      destruct (small_cases bits Hb) as [->|[->|[->|[->|[->|[->|[->| ->]]]]]]];
+        match goal with |- context [8 <=? ?b + 5] =>
+          let c := eval vm_compute in (8 <=? b + 5) in change (8 <=? b + 5) with c;
+          let s := eval vm_compute in (b + 5) in change (b + 5) with s end;
+        cbv iota;
+        repeat match goal with |- context [?a - 8] =>
+          let d := eval vm_compute in (a - 8) in change (a - 8) with d end;
+        rewrite ?N.shiftr_div_pow2; pow2;
+        rewrite IH by lia; pow2;
+        (f_equal; [unfold acc'; lia| ]) || idtac;
+        try (f_equal; f_equal; unfold acc'; lia);
+        try (f_equal; unfold acc'; lia).
+Qed.
+
+Lemma D_emit v t y bits ret k : v < 32 -> bits + 5 = k + 8 ->
+  D (v :: t) y bits ret = D t ((y * 32 + v) mod 2 ^ k) k (ret ++ [(y * 32 + v) / 2 ^ k]).
+Proof.
+  intros Hv Hk. cbn [D]. destruct (32 <=? v) eqn:E; [lia|].
+  destruct (8 <=? bits + 5) eqn:E2; [|lia]. replace (bits + 5 - 8) with k by lia. reflexivity.
+Qed.
+Lemma D_keep v t y bits ret : v < 32 -> bits + 5 < 8 ->
+  D (v :: t) y bits ret = D t (y * 32 + v) (bits + 5) ret.
+Proof.
+  intros Hv Hk. cbn [D]. destruct (32 <=? v) eqn:E; [lia|].
+  destruct (8 <=? bits + 5) eqn:E2; [lia|reflexivity].
+Qed.
+Lemma D_end y bits ret : bits < 5 -> y = 0 -> D [] y bits ret = Ok ret.
+Proof. intros Hb ->. cbn [D]. destruct (5 <=? bits) eqn:E; [lia|reflexivity]. Qed.
+
+(* (buffer & 0b1111_1000) >> 3 is buffer >> 3 for a u8: sweep over the 256 values *)
+Lemma mask_shift_sweep : forallb (fun i => N.land (N.of_nat i) 248 / 8 =? N.of_nat i / 8) (seq 0 256) = true.
+Proof. vm_compute. reflexivity. Qed.
+Lemma mask_shift b : b < 256 -> N.land b 248 / 8 = b / 8.
+Proof.
+  intros H. pose proof mask_shift_sweep as S. rewrite forallb_forall in S.
+  specialize (S (N.to_nat b)). rewrite N2Nat.id in S.
+  assert (I : In (N.to_nat b) (seq 0 256)) by (apply in_seq; lia). specialize (S I). lia.
+Qed.
+
+(* one round of the encoder for each reachable amount of buffered bits (by computation) *)
+Lemma enc_step_0 b t buffer : to_base32_go (b :: t) 0 buffer =
+  N.lor (buffer / 8) (N.shiftr b 3) :: to_base32_go t 3 (N.shiftl b 5 mod 256).
+Proof. reflexivity. Qed.
+Lemma enc_step_3 b t buffer : to_base32_go (b :: t) 3 buffer =
+  N.lor (buffer / 8) (N.shiftr b 6) :: to_base32_go t 6 (N.shiftl b 2 mod 256).
+Proof. reflexivity. Qed.
+Lemma enc_step_4 b t buffer : to_base32_go (b :: t) 4 buffer =
+  N.lor (buffer / 8) (N.shiftr b 7) :: to_base32_go t 7 (N.shiftl b 1 mod 256).
+Proof. reflexivity. Qed.
+Lemma enc_step_5 b t buffer : to_base32_go (b :: t) 5 buffer =
+  N.land buffer 248 / 8 :: N.lor ((buffer * 32) mod 256 / 8) (N.shiftr b 3) :: to_base32_go t 3 (N.shiftl b 5 mod 256).
+Proof. reflexivity. Qed.
+Lemma enc_step_6 b t buffer : to_base32_go (b :: t) 6 buffer =
+  N.land buffer 248 / 8 :: N.lor ((buffer * 32) mod 256 / 8) (N.shiftr b 4) :: to_base32_go t 4 (N.shiftl b 4 mod 256).
+Proof. reflexivity. Qed.
+Lemma enc_step_7 b t buffer : to_base32_go (b :: t) 7 buffer =
+  N.land buffer 248 / 8 :: N.lor ((buffer * 32) mod 256 / 8) (N.shiftr b 5) :: to_base32_go t 5 (N.shiftl b 3 mod 256).
+Proof. reflexivity. Qed.
+Lemma enc_end_0 buffer : to_base32_go [] 0 buffer = []. Proof. reflexivity. Qed.
+Lemma enc_end_3 buffer : to_base32_go [] 3 buffer = [buffer / 8]. Proof. reflexivity. Qed.
+Lemma enc_end_4 buffer : to_base32_go [] 4 buffer = [buffer / 8]. Proof. reflexivity. Qed.
+Lemma enc_end_5 buffer : to_base32_go [] 5 buffer = [N.land buffer 248 / 8]. Proof. reflexivity. Qed.
+Lemma enc_end_6 buffer : to_base32_go [] 6 buffer = [N.land buffer 248 / 8; (buffer * 32) mod 256 / 8]. Proof. reflexivity. Qed.
+Lemma enc_end_7 buffer : to_base32_go [] 7 buffer = [N.land buffer 248 / 8; (buffer * 32) mod 256 / 8]. Proof. reflexivity. Qed.
+
+Definition bits_of (r : N) : N := if r =? 0 then 0 else 8 - r.
+(* the byte that is split between the decoder's unread bits (high part) and the encoder's buffer *)
+Definition pend (r buffer y : N) : bytes := if r =? 0 then [] else [y * 2 ^ r + buffer / 2 ^ (8 - r)].
+Definition st_ok (r buffer y : N) : Prop :=
+  (r = 0 /\ buffer = 0 /\ y = 0) \/
+  ((r = 3 \/ r = 4 \/ r = 5 \/ r = 6 \/ r = 7) /\ buffer < 256 /\ buffer mod 2 ^ (8 - r) = 0 /\ y < 2 ^ (8 - r)).
+
+Ltac lor_plus k :=
+  match goal with |- context [N.lor ?a ?v] =>
+    rewrite (lor_disj a v k) by (pow2; lia) end.
+
+Lemma sim bs : bytes_ok bs -> forall r buffer y ret, st_ok r buffer y ->
+  D (to_base32_go bs r buffer) y (bits_of r) ret = Ok (ret ++ pend r buffer y ++ bs).
+Proof.
+  induction 1 as [|b t Hb _ IH]; intros r buffer y ret Hst.
+  - (* end of input: flush *)
+    destruct Hst as [(-> & -> & ->)|([->|[->|[->|[->| ->]]]] & Hbuf & Hmod & Hy)];
+      unfold bits_of, pend; pow2;
+      repeat match goal with |- context [?a =? 0] =>
+        let c := eval vm_compute in (a =? 0) in change (a =? 0) with c end; cbv iota;
+      repeat match goal with |- context [8 - ?a] =>
+        let c := eval vm_compute in (8 - a) in change (8 - a) with c end; pow2;
+      repeat match goal with H : context [8 - ?a] |- _ =>
+        let c := eval vm_compute in (8 - a) in change (8 - a) with c in H end; pow2.
+    + rewrite enc_end_0, D_end by lia. now rewrite !app_nil_r.
+    + rewrite enc_end_3. rewrite (D_emit _ _ _ 5 _ 2) by lia. pow2. rewrite D_end by lia.
+      rewrite app_nil_r. do 3 f_equal. lia.
+    + rewrite enc_end_4. rewrite (D_emit _ _ _ 4 _ 1) by lia. pow2. rewrite D_end by lia.
+      rewrite app_nil_r. do 3 f_equal. lia.
+    + rewrite enc_end_5, mask_shift by lia. rewrite (D_emit _ _ _ 3 _ 0) by lia. pow2. rewrite D_end by lia.
+      rewrite app_nil_r. do 3 f_equal. lia.
+    + rewrite enc_end_6, mask_shift by lia. rewrite (D_keep _ _ _ 2) by lia. change (2 + 5) with 7.
+      rewrite (D_emit _ _ _ 7 _ 4) by lia. pow2. rewrite D_end by lia.
+      rewrite app_nil_r. do 3 f_equal. lia.
+    + rewrite enc_end_7, mask_shift by lia. rewrite (D_keep _ _ _ 1) by lia. change (1 + 5) with 6.
+      rewrite (D_emit _ _ _ 6 _ 3) by lia. pow2. rewrite D_end by lia.
+      rewrite app_nil_r. do 3 f_equal. lia.
+  - (* one more byte *)
+    destruct Hst as [(-> & -> & ->)|([->|[->|[->|[->| ->]]]] & Hbuf & Hmod & Hy)];
+      unfold bits_of, pend; pow2;
+      repeat match goal with |- context [?a =? 0] =>
+        let c := eval vm_compute in (a =? 0) in change (a =? 0) with c end; cbv iota;
+      repeat match goal with |- context [8 - ?a] =>
+        let c := eval vm_compute in (8 - a) in change (8 - a) with c end; pow2;
+      repeat match goal with H : context [8 - ?a] |- _ =>
+        let c := eval vm_compute in (8 - a) in change (8 - a) with c in H end; pow2.
+    + (* r = 0 *)
+      rewrite enc_step_0, N.shiftr_div_pow2, N.shiftl_mul_pow2. pow2.
+      change (0 / 8) with 0. rewrite N.lor_0_l.
+      rewrite (D_keep _ _ _ 0) by lia. change (0 + 5) with 5.
+      assert (S3 : st_ok 3 ((b * 32) mod 256) (0 * 32 + b / 8)).
+      { right. split; [auto|]. pow2. change (8 - 3) with 5. pow2. lia. }
+      pose proof (IH 3 _ _ ret S3) as I. unfold bits_of, pend in I.
+      change (3 =? 0) with false in I. cbv iota in I. change (8 - 3) with 5 in I. pow2. rewrite I.
+      cbn [app]. do 3 f_equal. lia.
+    + (* r = 3 *)
+      rewrite enc_step_3, N.shiftr_div_pow2, N.shiftl_mul_pow2. pow2. lor_plus 2.
+      rewrite (D_emit _ _ _ 5 _ 2) by lia. pow2.
+      assert (S6 : st_ok 6 ((b * 4) mod 256) ((y * 32 + (buffer / 8 + b / 64)) mod 4)).
+      { right. split; [auto|]. change (8 - 6) with 2. pow2. lia. }
+      pose proof (IH 6 _ _ (ret ++ [(y * 32 + (buffer / 8 + b / 64)) / 4]) S6) as I. unfold bits_of, pend in I.
+      change (6 =? 0) with false in I. cbv iota in I. change (8 - 6) with 2 in I. pow2. rewrite I.
+      rewrite <- app_assoc. cbn [app]. do 2 f_equal. f_equal; [lia|]. f_equal. lia.
+    + (* r = 4 *)
+      rewrite enc_step_4, N.shiftr_div_pow2, N.shiftl_mul_pow2. pow2. lor_plus 1.
+      rewrite (D_emit _ _ _ 4 _ 1) by lia. pow2.
+      assert (S7 : st_ok 7 ((b * 2) mod 256) ((y * 32 + (buffer / 8 + b / 128)) mod 2)).
+      { right. split; [auto 6|]. change (8 - 7) with 1. pow2. lia. }
+      pose proof (IH 7 _ _ (ret ++ [(y * 32 + (buffer / 8 + b / 128)) / 2]) S7) as I. unfold bits_of, pend in I.
+      change (7 =? 0) with false in I. cbv iota in I. change (8 - 7) with 1 in I. pow2. rewrite I.
+      rewrite <- app_assoc. cbn [app]. do 2 f_equal. f_equal; [lia|]. f_equal. lia.
+    + (* r = 5 *)
+      rewrite enc_step_5, mask_shift, N.shiftr_div_pow2, N.shiftl_mul_pow2 by lia. pow2.
+      replace ((buffer * 32) mod 256 / 8) with 0 by lia. rewrite N.lor_0_l.
+      rewrite (D_emit _ _ _ 3 _ 0) by lia. pow2.
+      rewrite (D_keep _ _ _ 0) by lia. change (0 + 5) with 5.
+      assert (S3 : st_ok 3 ((b * 32) mod 256) ((y * 32 + buffer / 8) mod 1 * 32 + b / 8)).
+      { right. split; [auto|]. change (8 - 3) with 5. pow2. lia. }
+      pose proof (IH 3 _ _ (ret ++ [(y * 32 + buffer / 8) / 1]) S3) as I. unfold bits_of, pend in I.
+      change (3 =? 0) with false in I. cbv iota in I. change (8 - 3) with 5 in I. pow2. rewrite I.
+      rewrite <- app_assoc. cbn [app]. do 2 f_equal. f_equal; [lia|]. f_equal. lia.
+    + (* r = 6 *)
+      rewrite enc_step_6, mask_shift, N.shiftr_div_pow2, N.shiftl_mul_pow2 by lia. pow2. lor_plus 4.
+      rewrite (D_keep _ _ _ 2) by lia. change (2 + 5) with 7.
+      rewrite (D_emit _ _ _ 7 _ 4) by lia. pow2.
+      set (y2 := (y * 32 + buffer / 8) * 32 + ((buffer * 32) mod 256 / 8 + b / 16)).
+      assert (S4 : st_ok 4 ((b * 16) mod 256) (y2 mod 16)).
+      { right. split; [auto|]. change (8 - 4) with 4. pow2. lia. }
+      pose proof (IH 4 _ _ (ret ++ [y2 / 16]) S4) as I. unfold bits_of, pend in I.
+      change (4 =? 0) with false in I. cbv iota in I. change (8 - 4) with 4 in I. pow2. rewrite I.
+      rewrite <- app_assoc. cbn [app]. do 2 f_equal. unfold y2. f_equal; [lia|]. f_equal. lia.
+    + (* r = 7 *)
+      rewrite enc_step_7, mask_shift, N.shiftr_div_pow2, N.shiftl_mul_pow2 by lia. pow2. lor_plus 3.
+      rewrite (D_keep _ _ _ 1) by lia. change (1 + 5) with 6.
+      rewrite (D_emit _ _ _ 6 _ 3) by lia. pow2.
+      set (y2 := (y * 32 + buffer / 8) * 32 + ((buffer * 32) mod 256 / 8 + b / 32)).
+      assert (S5 : st_ok 5 ((b * 8) mod 256) (y2 mod 8)).
+      { right. split; [auto|]. change (8 - 5) with 3. pow2. lia. }
+      pose proof (IH 5 _ _ (ret ++ [y2 / 8]) S5) as I. unfold bits_of, pend in I.
+      change (5 =? 0) with false in I. cbv iota in I. change (8 - 5) with 3 in I. pow2. rewrite I.
+      rewrite <- app_assoc. cbn [app]. do 2 f_equal. unfold y2. f_equal; [lia|]. f_equal. lia.
+Qed.
+
+(* FromBase32(ToBase32(bytes)) = bytes, for every byte string *)
+Theorem base32_roundtrip bs : bytes_ok bs -> from_base32 (to_base32 bs) = Ok bs.
+Proof.
+  intros H. unfold from_base32, to_base32. rewrite dec_D by lia. change (0 mod 2 ^ 0) with 0.
+  pose proof (sim bs H 0 0 0 [] ltac:(left; auto)) as S. unfold bits_of, pend in S.
+  change (0 =? 0) with true in S. cbv iota in S. exact S.
+Qed.
